@@ -63,7 +63,7 @@ def generate(rseed, tier='quick'):
       pools[i] = ['^g2/', '^g2/', '^(?!g2/)'] + pools[i]
   knobs = {
       'faults': r.random() < 0.75,
-      'container': r.choice(['list', 'gen', 'iter', 're', 'tuple', 'reuse']),
+      'container': r.choice(['list', 'gen', 'iter', 're', 'tuple']),
       'share_model_bytearray': r.random() < 0.5,
       'large_threshold': r.choice([None, None, None, 0, 2**31]),
   }
